@@ -1,18 +1,19 @@
 /-
 C17 property theorems: the model of py/list.go / dict.go / set.go / iterator.go over Go backing
-arrays REFINES the specification's heap of values.  `abs` forgets arrays, offsets and capacities;
+arrays REFINES the specification's heap of values.  Round 1: the append family, iterators, the
+corollaries; round 2 (second half of this file): EVERY list operation (`list_step_refines_partial`,
+`history_refines`), sort (sorted + permutation + stable, relative to any stable sort), dicts and sets.
+Helper layers: Proofs.lean (Go-slice primitives, Inv, frame lemma), Refine.lean (Own results, loops,
+iterators), RefineOps.lean / RefineIdx.lean (one lemma per operation), SliceProofs.lean (Go index
+arithmetic = Python slice semantics, on C13), SortProofs.lean, DictSetProofs.lean.  `abs` forgets arrays, offsets and capacities;
 `Inv` (valid headers, distinct list objects never share an array) is what makes a write through
 one object invisible through any other.  Every theorem quantifies over ALL heaps satisfying `Inv`
 (hence over every finite history that preserves it), all values, names, sizes and capacities, and
 over every growth rule (`growCap` is never unfolded).
 -/
-import GPy.C17.Proofs
+import GPy.C17.RefineIdx
+import GPy.C17.DictSetProofs
 namespace GPy.C17
-
-theorem abs_obj (h : MHeap) (v : Nat) : (abs h).obj v = (h.obj v).map (absObj h.arrs) := by
-  simp [SHeap.obj, MHeap.obj, abs]
-
-theorem obj_lookup {h : MHeap} {v : Nat} {o : MObj} (e : h.obj v = some o) : h.objs[h.id v]? = some o := e
 
 /-- the initial heaps of the generated histories satisfy the invariant -/
 theorem inv_init : Inv ⟨[[], [], []], [.iter 0 (.tuple [] none), .list ⟨0, 0, 0, 0⟩, .list ⟨1, 0, 0, 0⟩, .list ⟨2, 0, 0, 0⟩], [1, 2, 3, 0, 0]⟩ := by
@@ -166,11 +167,7 @@ def appendLike : Op → Bool
   | .lAppend .. | .lExtend .. | .lIAdd .. => true
   | _ => false
 
-def specRun (perm : Bool → List Val → List Val) (h : SHeap) : List Op → SHeap
-  | [] => h
-  | op :: ops => specRun perm (specStep perm h op).1 ops
-
-theorem history_refines (perm : Bool → List Val → List Val) (ops : List Op) (hops : ∀ op ∈ ops, appendLike op = true)
+theorem history_refines_append (perm : Bool → List Val → List Val) (ops : List Op) (hops : ∀ op ∈ ops, appendLike op = true)
     (h : MHeap) (inv : Inv h) : Inv (run h ops) ∧ abs (run h ops) = specRun perm (abs h) ops := by
   induction ops generalizing h with
   | nil => exact ⟨inv, rfl⟩
@@ -241,33 +238,6 @@ theorem copy_is_independent (h : MHeap) (inv : Inv h) (u v : Nat) (x : Val) (hne
     | _ => simp [absObj, abs_obj]
 
 /-! ### iteration over the live list -/
-
-theorem abs_setObj (h : MHeap) (id : Nat) (o : MObj) : abs (h.setObj id o) = (abs h).setObj id (absObj h.arrs o) := by
-  simp [abs, MHeap.setObj, SHeap.setObj, List.map_set]
-
-/-- one `__next__` of a list iterator (or of an exhausted / origin-free snapshot) reads the LIVE list:
-model and specification return the same item / StopIteration and the same next iterator state -/
-theorem iterNext_abs (h : MHeap) (inv : Inv h) (pos : Nat) (seq : ISeq) (hseq : ∀ xs o, seq = .tuple xs o → o = none) :
-    (iterNext h.arrs h.objs pos seq).1 = (specNext (abs h) pos (absSeq seq)).1 ∧
-    absObj h.arrs (iterNext h.arrs h.objs pos seq).2 = (specNext (abs h) pos (absSeq seq)).2 := by
-  cases seq with
-  | tuple xs o =>
-    have := hseq xs o rfl; subst this
-    simp only [iterNext, specNext, absSeq]
-    split <;> simp [absObj, absSeq]
-  | obj id =>
-    simp only [iterNext, specNext, absSeq]
-    have hmap : (abs h).objs[id]? = (h.objs[id]?).map (absObj h.arrs) := by simp [abs]
-    rw [hmap]
-    cases e : h.objs[id]? with
-    | none => simp [absObj, absSeq]
-    | some o =>
-      cases o with
-      | list hd =>
-        have hl := readHdr_length h.arrs hd (inv.valid id hd e)
-        simp only [Option.map_some, absObj, hl]
-        split <;> simp [absObj, absSeq]
-      | _ => simp [absObj, absSeq]
 
 /-- MUTATION DURING ITERATION: `next(t)` on a list iterator refines the specification in EVERY heap –
 whatever appends, deletions, reallocations happened to the list since `iter()` – because the iterator
@@ -393,5 +363,252 @@ example : ∀ pos xs o, (⟨[[.int 1]], [.list ⟨0, 0, 1, 1⟩, .iter 0 (.obj 0
   have : (⟨[[.int 1]], [.list ⟨0, 0, 1, 1⟩, .iter 0 (.obj 0)], [0, 0, 0, 1, 1]⟩ : MHeap).obj 3 = some (.iter 0 (.obj 0)) := by decide
   rw [this] at hh
   cases hh
+
+/-! ## Round 2: EVERY list operation refines, over any history -/
+
+/-- the operations of a list history: every list operation of the model and the kind-generic ones -/
+def listOp : Op → Bool
+  | .alias .. | .lNew .. | .lCopy .. | .lSliceCopy .. | .lOfSrc .. | .lOfIter .. | .lComp .. | .lAppend .. | .lExtend ..
+  | .lExtendSrc .. | .lExtendIter .. | .lIAdd .. | .lIAddSrc .. | .lAdd .. | .lMul .. | .lIMul .. | .lSetItem .. | .lDelItem ..
+  | .lGetItem .. | .lGetSlice .. | .lSetSlice .. | .lSetSliceSrc .. | .lDelSlice .. | .lSort .. | .lForAppend .. | .lInsert ..
+  | .lPop .. | .lRemove .. | .lReverse .. | .lClear .. | .lCopyM .. | .len .. | .eq .. | .ne .. | .contains .. | .iter ..
+  | .next .. | .drain .. => true
+  | _ => false
+
+/-- the index / slice integers of an operation are Go `int`s (a Python int beyond int64 is a *BigInt:
+C13's territory, never generated here) -/
+def Op.intsOK : Op → Prop
+  | .lSetItem _ i _ | .lDelItem _ i | .lGetItem _ i => inRange i
+  | .lPop _ i => optInRange i
+  | .lGetSlice _ _ lo hi st | .lSetSlice _ lo hi st _ | .lSetSliceSrc _ lo hi st _ | .lDelSlice _ lo hi st =>
+    optInRange lo ∧ optInRange hi ∧ optInRange st
+  | _ => True
+
+/-- no list a name refers to has more than 2^63-1 items (no Go slice has) -/
+def Small (h : MHeap) : Prop := ∀ v hd, h.obj v = some (.list hd) → (hd.len : Int) ≤ IntMax
+
+/-- side conditions of one step: Go-sized integers and lists, and not inside known finding C17-K03 -/
+structure OpOK (h : MHeap) (op : Op) : Prop where
+  ints : op.intsOK
+  small : Small h
+  k03 : kfSortBools (abs h) op = false
+
+/-- **EVERY list operation refines.**  For every heap satisfying the invariant and every operation of a list
+history – item and slice assignment/deletion (the assigned list may be the target itself), append/extend/+=
+from lists, tuples, strings, iterators, insert/pop/remove/reverse/clear/copy, sort, `*=`, `+`, `*`, list()/slice/
+comprehension copies, a for-loop appending to the list it iterates, len/==/!=/in, iter/next/list(it) –
+the abstraction commutes with the step, the observation (value or exception) is the specification's, and the
+invariant is kept.  PARTIAL only in `OpOK`: Go-sized integers/lists and the exclusion of C17-K03. -/
+theorem list_step_refines_partial (h : MHeap) (li : LInv h) (op : Op) (hop : listOp op = true) (hok : OpOK h op) :
+    Refines modelPerm h op := by
+  have hs := hok.small
+  cases op <;> simp only [listOp, Bool.false_eq_true] at hop
+  case «alias» v w => exact alias_refines _ h li v w
+  case lNew v xs => exact lNew_refines _ h li v xs
+  case lCopy v w => exact lCopy_refines _ h li v w
+  case lSliceCopy v w => exact lSliceCopy_refines _ h li v w
+  case lOfSrc v s => exact lOfSrc_refines _ h li v s
+  case lOfIter v t => exact lOfIter_refines _ h li v t
+  case lComp v w => exact lComp_refines _ h li v w
+  case lAppend v x => exact lAppend_refines _ h li v x
+  case lExtend v w => exact lExtend_refines _ h li v w
+  case lExtendSrc v s => exact lExtendSrc_refines _ h li v s
+  case lExtendIter v t => exact lExtendIter_refines _ h li v t
+  case lIAdd v w => exact lIAdd_refines _ h li v w
+  case lIAddSrc v s => exact lIAddSrc_refines _ h li v s
+  case lAdd u v w => exact lAdd_refines _ h li u v w
+  case lMul u v n => exact lMul_refines _ h li u v n
+  case lIMul v n => exact lIMul_refines _ h li v n
+  case lSetItem v i x => exact lSetItem_refines _ h li v i x hok.ints (hs v)
+  case lDelItem v i => exact lDelItem_refines _ h li v i hok.ints (hs v)
+  case lGetItem v i => exact lGetItem_refines _ h li v i hok.ints (hs v)
+  case lGetSlice u v lo hi st => exact lGetSlice_refines _ h li u v lo hi st hok.ints.1 hok.ints.2.1 hok.ints.2.2 (hs v)
+  case lSetSlice v lo hi st w => exact lSetSlice_refines _ h li v w lo hi st hok.ints.1 hok.ints.2.1 hok.ints.2.2 (hs v)
+  case lSetSliceSrc v lo hi st s => exact lSetSliceSrc_refines _ h li v lo hi st s hok.ints.1 hok.ints.2.1 hok.ints.2.2 (hs v)
+  case lDelSlice v lo hi st => exact lDelSlice_refines _ h li v lo hi st hok.ints.1 hok.ints.2.1 hok.ints.2.2 (hs v)
+  case lSort v rev => exact lSort_refines_partial h li v rev hok.k03
+  case lForAppend v b => exact lForAppend_refines _ h li v b
+  case lInsert v i x => exact lInsert_refines _ h li v i x
+  case lPop v i => exact lPop_refines _ h li v i hok.ints (hs v)
+  case lRemove v x => exact lRemove_refines _ h li v x
+  case lReverse v => exact lReverse_refines _ h li v
+  case lClear v => exact lClear_refines _ h li v
+  case lCopyM u v => exact lCopyM_refines _ h li u v
+  case len v => exact len_refines _ h li v
+  case eq v w => exact eq_refines _ h li v w
+  case ne v w => exact ne_refines _ h li v w
+  case contains v x => exact contains_refines _ h li v x
+  case iter t v => exact iter_refines _ h li t v
+  case next t => exact next_refines _ h li t
+  case drain t => exact drain_refines _ h li t
+
+/-- the side conditions hold along the whole model run -/
+def RunOK (h : MHeap) : List Op → Prop
+  | [] => True
+  | op :: ops => listOp op = true ∧ OpOK h op ∧ RunOK (step h op).1 ops
+
+/-- the observations of a run, step by step -/
+def runObs (h : MHeap) : List Op → List Res
+  | [] => []
+  | op :: ops => (step h op).2 :: runObs (step h op).1 ops
+
+def specObs (perm : Bool → List Val → List Val) (h : SHeap) : List Op → List Res
+  | [] => []
+  | op :: ops => (specStep perm h op).2 :: specObs perm (specStep perm h op).1 ops
+
+/-- **history_refines**, by induction over ANY finite history of list operations (all of them: see `listOp`)
+from any heap satisfying the invariant: the final heap satisfies the invariant, its abstraction is what the
+specification computes for the same history, and EVERY observation along the way (value, exception) is the
+specification's.  PARTIAL: `RunOK` asks, at every step of the model run, for Go-sized integers and lists
+(int64 indices, len ≤ 2^63-1) and excludes C17-K03 (sorting a list that holds two bools). -/
+theorem history_refines_partial (ops : List Op) (h : MHeap) (li : LInv h) (hok : RunOK h ops) :
+    LInv (run h ops) ∧ abs (run h ops) = specRun modelPerm (abs h) ops ∧ runObs h ops = specObs modelPerm (abs h) ops := by
+  induction ops generalizing h with
+  | nil => exact ⟨li, rfl, rfl⟩
+  | cons op ops ih =>
+    obtain ⟨hop, hk, hrest⟩ := hok
+    obtain ⟨a, r, i⟩ := list_step_refines_partial h li op hop hk
+    obtain ⟨i1, i2, i3⟩ := ih (step h op).1 i hrest
+    simp only [run, specRun, runObs, specObs]
+    rw [← a, ← r]
+    exact ⟨i1, i2, by rw [i3]⟩
+
+/-- the generator's initial list heap satisfies the invariant of list histories -/
+theorem linv_init : LInv ⟨[[], [], []], [.iter 0 (.tuple [] none), .list ⟨0, 0, 0, 0⟩, .list ⟨1, 0, 0, 0⟩, .list ⟨2, 0, 0, 0⟩], [1, 2, 3, 0, 0]⟩ := by
+  refine ⟨inv_init, ?_⟩
+  intro o ho
+  simp only [List.mem_cons, List.mem_nil_iff, or_false] at ho
+  rcases ho with rfl | rfl | rfl | rfl
+  · exact listObj_of_iter (okObj_empty 0)
+  · exact listObj_list _
+  · exact listObj_list _
+  · exact listObj_list _
+
+/-! ### corollaries of the general refinement -/
+
+/-- SELF OPERAND, slice form: `l[lo:hi] = l` splices the OLD contents of `l` into itself (the value is read
+before the list is touched), whatever the bounds – e.g. `l[1:2] = l` -/
+theorem self_operand_slice (h : MHeap) (li : LInv h) (v : Nat) (hd : Hdr) (lo hi : Option Int) (e : h.obj v = some (.list hd))
+    (hlo : optInRange lo) (hhi : optInRange hi) (hn : (hd.len : Int) ≤ IntMax) :
+    (abs (step h (.lSetSlice v lo hi none v)).1).obj v
+      = some (.list (replaceRun (readHdr h.arrs hd) (readHdr h.arrs hd).length lo hi (readHdr h.arrs hd))) ∧
+    (step h (.lSetSlice v lo hi none v)).2 = .ok := by
+  have hsm : ∀ hd', h.obj v = some (.list hd') → (hd'.len : Int) ≤ IntMax := fun hd' e' => by rw [e] at e'; cases e'; exact hn
+  obtain ⟨a, r, _⟩ := lSetSlice_refines modelPerm h li v v lo hi none hlo hhi (fun _ hh => by cases hh) hsm
+  rw [a, r]
+  have hlt : h.id v < (abs h).objs.length := by
+    have := lt_of_lookup (obj_lookup e); simpa [abs] using this
+  have hsp : slicePos (readHdr h.arrs hd).length lo hi none
+      = .ok (C13.sliceIndices (readHdr h.arrs hd).length lo hi 1, true) := by
+    cases lo <;> cases hi <;> rfl
+  simp only [specStep, abs_obj, e, Option.map_some, absObj, specSetSlice, hsp, if_true]
+  simp only [SHeap.obj, SHeap.setObj, SHeap.id]
+  constructor
+  · show ((abs h).objs.set (h.id v) _)[h.id v]? = _
+    simp [hlt]
+  · trivial
+
+/-- ALIAS SEES EVERY MUTATION, NEVER A COPY: for ANY list operation `op` (slice assignment, sort, pop, `*=`, …), a
+name bound to a different object than every object the specification's step changes reads the same value before
+and after – stated through the refinement: the model's abstract heap after the step IS the specification's -/
+theorem step_visible_exactly_as_spec_partial (h : MHeap) (li : LInv h) (op : Op) (hop : listOp op = true) (hok : OpOK h op) (u : Nat) :
+    (abs (step h op).1).obj u = (specStep modelPerm (abs h) op).1.obj u := by
+  rw [(list_step_refines_partial h li op hop hok).1]
+
+/-! ### sort: sorted, permutation, stable – relative to ANY stable sort -/
+
+/-- `list.sort(reverse=rev)` on a list whose comparisons are all defined (all numbers or all strings; at most
+one bool – C17-K03): no error, and the result is SORTED, a PERMUTATION, STABLE (every already-ordered
+subsequence of the input is a subsequence of the result) – and hence equal to the specification's stable
+merge sort.  The model's `sortStable` is Go's insertion sort (sort.Stable's single block for n ≤ 20). -/
+theorem sort_result_is_sorted_permutation_and_stable (rev : Bool) (xs : List Val) (hs : sortable xs = true) (hb : twoBools xs = false) :
+    (sortStable rev xs).2 = false ∧
+    ((sortStable rev xs).1).Pairwise (fun a b => leOf rev a b = true) ∧ (sortStable rev xs).1.Perm xs ∧
+    (∀ c : List Val, c.Sublist xs → c.Pairwise (fun a b => leOf rev a b = true) → c.Sublist (sortStable rev xs).1) ∧
+    (sortStable rev xs).1 = specSort rev xs :=
+  ⟨sortStable_noerr rev xs hs hb, (sort_sorted_perm_stable rev xs hs hb).1, (sort_sorted_perm_stable rev xs hs hb).2.1,
+   (sort_sorted_perm_stable rev xs hs hb).2.2, sortStable_eq_specSort rev xs hs hb⟩
+
+/-- RELATIVE TO THE STABLE-SORT PARAMETER: whatever algorithm `sort.Stable` uses (for n > 20: insertion-sorted
+blocks merged by symMerge), if its result is a sorted, stable permutation then it IS the specification's sort –
+so the model's insertion sort stands for every stable sort -/
+theorem any_stable_sort_is_spec_sort (rev : Bool) (xs r : List Val) (hs : sortable xs = true) (hb : twoBools xs = false)
+    (hp : r.Perm xs) (hsorted : r.Pairwise (fun a b => leOf rev a b = true))
+    (hstable : ∀ c : List Val, c.Sublist xs → c.Pairwise (fun a b => leOf rev a b = true) → c.Sublist r) :
+    r = specSort rev xs ∧ r = (sortStable rev xs).1 := by
+  have := stable_sort_unique rev xs r hs hb hp hsorted hstable
+  exact ⟨this, by rw [this, sortStable_eq_specSort rev xs hs hb]⟩
+
+/-- THE ERROR PATH: a list that is not sortable as a whole makes some `Less` raise (TypeError is reported), and
+the list is left a PERMUTATION of its items -/
+theorem sort_error_leaves_permutation (rev : Bool) (xs : List Val) (hs : sortable xs = false) :
+    (sortStable rev xs).2 = true ∧ (sortStable rev xs).1.Perm xs :=
+  ⟨sortStable_err_of_not_sortable rev xs hs, sort_result_is_permutation rev xs⟩
+
+/-! ### dicts and sets: every operation refines (proofs: DictSetProofs.lean) -/
+
+/-- **EVERY dict and set operation refines** (display/constructor/comprehension, item set/get/del, get/pop/
+setdefault/update/copy/clear, keys/values, set add/update/remove/discard/clear/copy, the four set operators and
+their in-place forms, len/==/!=/in, iter/next/list(it)), in every heap without list objects that satisfies the
+key-distinctness invariant.  PARTIAL: `hc` excludes C17-K01 (all set members and mentioned scalars lie in a
+universe `U` on which Go's `==` is Python's `==`), `hk2` excludes C17-K02 (next on a dict/set iterator after a
+size change). -/
+theorem dict_set_step_refines_partial (perm : Bool → List Val → List Val) (h : MHeap) (nl : NoList h) (ki : KInv h)
+    (U : List Val) (hU : SetsIn h U) (hc : CanonOn U) (op : Op) (hop : dsOp op = true)
+    (hv : ∀ x ∈ op.vals, x ∈ U) (hk2 : kfIterSizeChanged (abs h) op = false) :
+    abs (step h op).1 = (specStep perm (abs h) op).1 ∧ (step h op).2 = (specStep perm (abs h) op).2 :=
+  ds_step_refines perm h nl ki U hU hc op hop hv hk2
+
+/-- the invariants of dict/set histories are kept by every such operation -/
+theorem dict_set_step_keeps_invariants (h : MHeap) (nl : NoList h) (ki : KInv h) (U : List Val) (hU : SetsInS h U) (op : Op)
+    (hop : dsOp op = true) (hv : ∀ x ∈ op.vals, x ∈ U) :
+    NoList (step h op).1 ∧ KInv (step h op).1 ∧ SetsInS (step h op).1 U :=
+  ds_step_inv h nl ki U hU op hop hv
+
+/-- by induction over ANY dict/set history -/
+theorem dict_set_history_refines_partial (perm : Bool → List Val → List Val) (ops : List Op) (hops : ∀ op ∈ ops, dsOp op = true)
+    (h : MHeap) (nl : NoList h) (ki : KInv h) (U : List Val) (hU : SetsIn h U) (hc : CanonOn U)
+    (hv : ∀ op ∈ ops, ∀ x ∈ op.vals, x ∈ U)
+    (hk2 : ∀ k, k < ops.length →
+      kfIterSizeChanged (specRun perm (abs h) (ops.take k)) (ops.getD k (.len 0)) = false) :
+    abs (run h ops) = specRun perm (abs h) ops ∧ NoList (run h ops) ∧ KInv (run h ops) :=
+  ds_history_refines perm ops hops h nl ki U hU hc hv hk2
+
+/-- … in particular every generated dict or set history outside the known-finding regions (`kfSetKeys`, `kfIterSizeChanged`
+– the very predicates that tag the generated cases) -/
+theorem dict_set_generated_history_refines_partial (perm : Bool → List Val → List Val) (ops : List Op) (hops : ∀ op ∈ ops, dsOp op = true)
+    (hk1 : kfSetKeys ops = false) (h0 : MHeap) (hh : h0 = dictInit ∨ h0 = setInit)
+    (hk2 : ∀ k, k < ops.length →
+      kfIterSizeChanged (specRun perm (abs h0) (ops.take k)) (ops.getD k (.len 0)) = false) :
+    abs (run h0 ops) = specRun perm (abs h0) ops ∧ NoList (run h0 ops) ∧ KInv (run h0 ops) :=
+  ds_generated_refines perm ops hops hk1 h0 hh hk2
+
+/-- a dict mutated through one name (`d[k] = x`, `d.update(e)`) is seen through every alias -/
+theorem dict_alias_sees_mutation (h : MHeap) (v w u : Nat) (k : String) (x : Val) (m mu : List (String × Val))
+    (hal : h.id w = h.id v) (e : h.obj v = some (.dict m)) (eu : h.obj u = some (.dict mu)) :
+    (abs (step h (.dSet v k x)).1).obj w = some (.dict (dictSet m k x)) ∧
+    (abs (step h (.dUpdate v u)).1).obj w = some (.dict (dictMerge m mu)) :=
+  dict_alias_sees_update h v w u k x m mu hal e eu
+
+/-! ### non-vacuity of the round-2 hypotheses -/
+
+theorem small_of_objs (h : MHeap) (hall : ∀ o ∈ h.objs, ∀ hd, o = MObj.list hd → (hd.len : Int) ≤ IntMax) : Small h :=
+  fun _ hd e => hall _ (List.mem_of_getElem? (obj_lookup e)) hd rfl
+
+/-- the hypotheses of `history_refines_partial` hold at a heap with an alias (names a, b ↦ one list object) for a
+history containing a self slice assignment `a[1:2] = a`, an extended-slice deletion and a sort -/
+example : let h : MHeap := ⟨[[.int 3, .int 1], [.str "a"]], [.list ⟨0, 0, 2, 2⟩, .list ⟨1, 0, 1, 1⟩], [0, 0, 1, 0, 0]⟩
+    RunOK h [.lSetSlice 0 (some 1) (some 2) none 0] ∧ listOp (.lDelSlice 0 none none (some (-2))) = true ∧
+    OpOK h (.lDelSlice 0 none none (some (-2))) ∧ OpOK h (.lSort 1 true) := by
+  intro h
+  have hs : Small h := small_of_objs h (by
+    intro o ho hd e
+    simp only [h, List.mem_cons, List.mem_nil_iff, or_false] at ho
+    rcases ho with rfl | rfl <;> cases e <;> simp [IntMax])
+  have r1 : optInRange (some 1) := fun v hv => by cases hv; simp [inRange, IntMin, IntMax]
+  have r2 : optInRange (some 2) := fun v hv => by cases hv; simp [inRange, IntMin, IntMax]
+  have r3 : optInRange (some (-2)) := fun v hv => by cases hv; simp [inRange, IntMin, IntMax]
+  have r0 : optInRange none := fun v hv => by cases hv
+  exact ⟨⟨rfl, ⟨⟨r1, r2, r0⟩, hs, by decide⟩, trivial⟩, rfl, ⟨⟨r0, r0, r3⟩, hs, by decide⟩, ⟨trivial, hs, by decide⟩⟩
 
 end GPy.C17
